@@ -97,4 +97,16 @@ def stepOld {L V : Type} (s : St L V) : Op L V → St L V × Out
     else ({ s with tfixed := tf }, .valueError)
   | o => step s o
 
+/-! ### covsync: errors for every parameter, covariance for exactly the free ones, looked up BY NAME -/
+
+/-- `{(p1, p2): minuit.covariance[p1, p2] for p1 in free for p2 in free}` — the minimiser's matrix is a
+    function of two parameter names (it covers all parameters, zero rows for fixed ones) -/
+def covsync {C : Type} (free : List Name) (mcov : Name → Name → C) : List ((Name × Name) × C) :=
+  free.flatMap fun p1 => free.map fun p2 => ((p1, p2), mcov p1 p2)
+
+/-- the positional variant (index into the matrix by position in the free list instead of by name) -/
+def covsyncPositional {C : Type} (names free : List Name) (mcov : Name → Name → C) : List ((Name × Name) × C) :=
+  free.zipIdx.flatMap fun (p1, i) => free.zipIdx.map fun (p2, j) =>
+    ((p1, p2), mcov (names.getD i "") (names.getD j ""))
+
 end Gep.Fit
